@@ -19,6 +19,7 @@ import RbV.Lemmas.PoaI32
 import RbV.Thm.GenSrcPoaAdd
 import RbV.Thm.GenSrcPoaAlign
 import RbV.Thm.GenSrcPoaScore
+import RbV.Thm.GenSrcPoaConsensus
 /-!
 # C16 — partial-order alignment: exact on linear graphs, graph stays a growing DAG
 
@@ -580,6 +581,22 @@ theorem poa_global_source_exact_linear (sc : Sc) (x q : List Nat) (B W : Int) (h
   have hsc : (Poa.Model.customTable sc Poa.Model.minScore Poa.Model.minScore Poa.Model.minScore Poa.Model.minScore x
       (Poa.Model.chainG x).es q).score = nwBest sc x q := hopt
   exact ⟨tb, e, by rw [← hsc]; exact hget, fun a ha => by rw [← hsc]; exact hal a ha⟩
+
+/-- **`Aligner::consensus` as translated returns a non-empty word spelled by a path** (hard, tie-robust: any arg-max
+choice).  On every non-empty well-formed DAG with fewer than `usize::MAX` nodes, whatever the edge weights: whenever the
+translated function returns `w` (the only panics left are `i32` overflows of the weight sums — every index is in range, the
+`unwrap` of `max_by_key` succeeds, the walk back ends within the fuel `node_count() + 2`), `w ≠ []` and `w` is `Spelled` by
+a walk of valid nodes.  Nothing is assumed about which of several equally heavy predecessors / end nodes is taken: only
+that one round of the maximisation keeps `best` or stores the neighbour (`for2_next`) and that the end node is an index of
+the table (`pick_lt`) — seeded C16-H2 (older node wins, `.rev()` before `max_by_key`) re-proves untouched. -/
+theorem poa_consensus_source_is_path (g : Poa.Model.G)
+    (hne : g.labels ≠ []) (hwf : ∀ e ∈ g.es, e.1 < g.labels.length ∧ e.2.1 < g.labels.length)
+    (hac : ∀ v, ¬ Reach (plain g.es) v v) (hsz : g.labels.length < 2 ^ 64 - 1) (w : List Nat)
+    (h : RbV.Gen.SrcPoaConsensus.consensus g = Rs.Res.ok w) : w ≠ [] ∧ Spelled g.labels (plain g.es) w :=
+  RbV.Thm.GenSrcPoaConsensus.consensus_is_path g ⟨hne, hwf, hac⟩ hsz w h
+
+example : RbV.Gen.SrcPoaConsensus.consensus { labels := [65, 67, 71, 84], es := [(0, 1, 2), (1, 2, 2), (0, 3, 1), (3, 2, 1)] } =
+    Rs.Res.ok [65, 67, 71] := by decide +kernel
 
 /-- **`Traceback::get` as translated = `BRow.get` of the mirror** on every row that represents a model row (`RowRep`: same
 band, cells equal up to the `MIN_SCORE` padding `new_row` allocates), with its three out-of-band answers -/
